@@ -338,9 +338,34 @@ func (c *Ctx) rawReaderTable1(r *ssa.Function, t onnxType) (known bool, bad, tai
 				return true, fmt.Sprintf("value %d is decoded as %s, the element is %d bytes in little-endian order", j, parts[0], w), tail, nil
 			}
 			nCmp := 0
+			afterBits := false
 			for _, st := range parts[1:] {
 				if st != "" && st != "bits" && !strings.HasPrefix(st, "conv:") {
 					nCmp++
+				}
+				// every bit pattern must arrive unchanged: integer conversions never below the element's width,
+				// and none at all once the word has become a floating point value (float32 -> float64 -> float32
+				// turns a signalling NaN into a quiet one)
+				if st == "bits" {
+					afterBits = true
+					continue
+				}
+				if strings.HasPrefix(st, "conv:") {
+					tn := strings.TrimPrefix(st, "conv:")
+					if afterBits {
+						if tn != types.Typ[t.goT].String() {
+							return true, fmt.Sprintf("value %d passes through %s after it was made a floating point value (operations %q): NaN payloads do not survive a float conversion", j, tn, e.s), tail, nil
+						}
+						continue
+					}
+					if sz, ok := map[string]int64{"int8": 1, "uint8": 1, "byte": 1, "int16": 2, "uint16": 2, "int32": 4, "uint32": 4, "int64": 8, "uint64": 8, "int": 8, "uint": 8, "float32": -4, "float64": -8}[tn]; ok {
+						if sz < 0 {
+							return true, fmt.Sprintf("value %d is converted numerically to %s (operations %q): the element's bits are not kept", j, tn, e.s), tail, nil
+						}
+						if sz < w {
+							return true, fmt.Sprintf("value %d passes through %s, which is narrower than the element's %d bytes (operations %q)", j, tn, w, e.s), tail, nil
+						}
+					}
 				}
 			}
 			if nCmp > 1 || (nCmp == 1 && t.goT != types.Bool) {
